@@ -126,7 +126,7 @@ def kernels():
         ks.append(Kernel(
             name, {"v": scenario(pattern), "n": NRM, "r": REF}, call, _wrapper_lemma(pattern, selected, mask_coq),
             imports=[("PW.model", "M_slicing"), ("PW.proofs", "P_slicing_tie")],
-            perturb=1e-12 if 0 in pattern else 1e-3, timeout=60,
+            perturb=1e-12 if 0 in pattern else 1e-3, timeout=240,
             expect_structure={"tuple": [
                 {"shape": [nv, 3], "data": ["e"] * (3 * nv)},
                 {"shape": [len(faces), 3], "dtype": "int64", "data": [i for f in faces for i in f]},
@@ -144,7 +144,7 @@ def kernels():
         ks.append(Kernel(
             name, {"v": scenario(pattern, unused_equal), "n": NRM, "r": REF}, call, _lemma(pattern, selected, with_mask),
             imports=[("PW.model", "M_slicing"), ("PW.proofs", "P_slicing_tie")],
-            perturb=1e-12 if (0 in pattern or unused_equal) else 1e-3, timeout=60,
+            perturb=1e-12 if (0 in pattern or unused_equal) else 1e-3, timeout=240,
             expect_structure={"tuple": [
                 {"shape": [nv, 3], "data": ["e"] * (3 * nv)},
                 {"shape": [len(faces), 3], "dtype": "int64", "data": [i for f in faces for i in f]},
